@@ -17,6 +17,11 @@ import time
 VERIF = os.path.dirname(os.path.dirname(os.path.abspath(__file__)))
 REPO = os.environ.get("RIG_REPO", "/repo")
 COQ = os.path.join(VERIF, "coq")
+if os.environ.get("RIG_REPO"):
+    # Testing the checks against a scratch copy of the repository (mutation experiments): use a private
+    # copy of the Coq tree so that the regenerated files do not disturb /verif/coq.
+    COQ = os.environ.get("RIG_COQ") or os.path.join(
+        VERIF, "work", "coq-" + hashlib.sha1(REPO.encode()).hexdigest()[:8])
 PY = "/venv/bin/python"
 GUARD = "RIG_VERIF"
 sys.path.insert(0, os.path.join(VERIF, "tools"))
@@ -218,6 +223,10 @@ class Check:
         os.makedirs(os.path.join(VERIF, "evidence"), exist_ok=True)
         os.makedirs(os.path.join(VERIF, "replays"), exist_ok=True)
         self.model_ok = True
+        if COQ != os.path.join(VERIF, "coq"):
+            os.makedirs(COQ, exist_ok=True)
+            with Lock(os.path.join(VERIF, "coq", ".lock")), Lock(os.path.join(COQ, ".lock")):
+                sh("rsync -a --exclude .lock %s/ %s/" % (os.path.join(VERIF, "coq"), COQ), timeout=600)
 
     # ---------------------------------------------------------------- counting
     def count(self, key, n=1):
@@ -271,7 +280,17 @@ class Check:
 
     # ---------------------------------------------------------------- proofs
     def ensure_makefile(self):
-        if not os.path.exists(os.path.join(COQ, "Makefile")):
+        """_CoqProject is derived from the directory listing; the Makefile is regenerated whenever the
+        set of .v files changes."""
+        files = []
+        for d in ("Generated", "Model", "Spec", "Proofs", "Props"):
+            full = os.path.join(COQ, d)
+            if os.path.isdir(full):
+                files += sorted("%s/%s" % (d, f) for f in os.listdir(full) if f.endswith(".v"))
+        text = ("-R . Rig\n-arg -w -arg -deprecated-hint-without-locality,-deprecated-instance-without-locality,"
+                "-deprecated-syntactic-definition,-notation-overridden,-ambiguous-paths\n" + "\n".join(files) + "\n")
+        changed = write_if_changed(os.path.join(COQ, "_CoqProject"), text)
+        if changed or not os.path.exists(os.path.join(COQ, "Makefile")):
             sh("coq_makefile -f _CoqProject -o Makefile", cwd=COQ, timeout=120)
 
     def build(self, targets, timeout=1500):
